@@ -319,8 +319,12 @@ class Run:
             ev["coverage"]["inconclusive"] = self.inconclusive
         if self.notes:
             ev["coverage"]["notes"] = self.notes
-        os.makedirs(os.path.join(VERIF, "evidence"), exist_ok=True)
-        path = os.path.join(VERIF, "evidence", self.pid + ".json")
+        evdir = os.path.join(VERIF, "evidence")
+        if os.path.realpath(self.repo) != "/repo" or os.environ.get("VERIF_COLLECT") == "1":
+            # runs against a scratch copy (mutant trials) or triage runs never touch the registered evidence
+            evdir = os.path.join(VERIF, ".build", "evidence-scratch")
+        os.makedirs(evdir, exist_ok=True)
+        path = os.path.join(evdir, self.pid + ".json")
         tmp = path + ".tmp"
         with open(tmp, "w") as f:
             json.dump(ev, f, indent=1, sort_keys=False, default=str)
